@@ -79,9 +79,9 @@ def dspr(E, f, th, dd):
     return np.degrees(np.sqrt(np.maximum(2.0 * (1.0 - r), 0.0))), 1.0 - r
 
 
-def momd_per_freq(E, th, dd, n=1):
-    """(msin, mcos)(f) as the accessor defines them: weights sin/cos(270 - theta)^n."""
-    t = np.radians(270.0 - np.asarray(th, dtype="float64"))
+def momd_per_freq(E, th, dd, n=1, theta=90.0):
+    """(msin, mcos)(f) as the accessor defines them: weights sin/cos(180 + theta - direction)^n (theta = 90 by default)."""
+    t = np.radians(180.0 + theta - np.asarray(th, dtype="float64"))
     E = np.asarray(E, dtype="float64")
     return (dd * E * np.sin(t) ** n).sum(-1), (dd * E * np.cos(t) ** n).sum(-1)
 
